@@ -58,10 +58,13 @@ macro_rules! float_cases {
         // ---------- DiffableGaussian2D: batched, single, autodiff gradients (the ones HMC / NUTS use)
         {
             let id = $out.fresh_id("dg");
-            let cov = spd(&mut $rng, 1e4);
-            let (m0, m1) = ($rng.normal() * 2.0, $rng.normal() * 2.0);
+            // a third of the cases: a well-conditioned covariance of small overall scale (determinant far below the
+            // scalar type's epsilon), everything else scaled along with it
+            let sc = if $rng.below(3) == 0 { $rng.log_uniform((<$T>::EPSILON as f64).powf(0.9), 1e-2) } else { 1.0 };
+            let cov = { let c = spd(&mut $rng, if sc < 1.0 { 10.0 } else { 1e4 }); [[c[0][0] * sc, c[0][1] * sc], [c[1][0] * sc, c[1][1] * sc]] };
+            let (m0, m1) = ($rng.normal() * 2.0 * sc.sqrt(), $rng.normal() * 2.0 * sc.sqrt());
             let n = $rng.range(1, 64) as usize;
-            let pts: Vec<$T> = (0..2 * n).map(|i| ((if i % 2 == 0 { m0 } else { m1 }) + $rng.normal() * 3.0) as $T).collect();
+            let pts: Vec<$T> = (0..2 * n).map(|i| ((if i % 2 == 0 { m0 } else { m1 }) + $rng.normal() * 3.0 * sc.sqrt()) as $T).collect();
             if $out.selected(&id) {
                 guard_case($out, &id.clone(), "C15:panic", n as u64, |out| {
                     let t = DiffableGaussian2D::<$T>::new([m0 as $T, m1 as $T], [[cov[0][0] as $T, cov[0][1] as $T], [cov[1][0] as $T, cov[1][1] as $T]]);
@@ -93,6 +96,9 @@ macro_rules! float_cases {
                         format!("{id} {}", toks.join(" ")),
                     );
                     out.count(&format!("diffable_gaussian_{}", $tyname));
+                    if sc < 1.0 {
+                        out.count("diffable_gaussian_small_scale");
+                    }
                     out.nontrivial(&format!("dg:{}:{n}:{}", $tyname, $hex(pts[0])));
                 });
             }
@@ -107,7 +113,14 @@ macro_rules! float_cases {
             let seed = $rng.next();
             if $out.selected(&id) {
                 guard_case($out, &id.clone(), "C15:panic", d as u64, |out| {
-                    let p = IsotropicGaussian::<$T>::new(std as $T);
+                    // half of the time the proposal is built with another width and `std` is then set through the public
+                    // field (adaptive tuning): logp / sample must follow the current value
+                    let retuned = seed % 2 == 0;
+                    let mut p = IsotropicGaussian::<$T>::new(if retuned { (std * 7.5) as $T } else { std as $T });
+                    p.std = std as $T;
+                    if retuned {
+                        out.count("isotropic_std_changed_after_construction");
+                    }
                     let l1: $T = Proposal::logp(&p, &from, &to);
                     let l2: $T = Proposal::logp(&p, &to, &from);
                     let un: $T = Target::unnorm_logp(&p, &to);
@@ -120,7 +133,8 @@ macro_rules! float_cases {
                         out.fail(&id, "C15:iso-asymmetric", "IsotropicGaussian::logp is not symmetric in its arguments", d as u64, format!("{l1} vs {l2}"));
                     }
                     // sample: reproducible under set_seed, and equal to from + std * z for the reference normal stream
-                    let mut a = IsotropicGaussian::<$T>::new(std as $T).set_seed(seed);
+                    let mut a = IsotropicGaussian::<$T>::new(if retuned { (std * 0.1) as $T } else { std as $T }).set_seed(seed);
+                    a.std = std as $T;
                     let mut b = IsotropicGaussian::<$T>::new(std as $T).set_seed(seed);
                     let sa = a.sample(&from);
                     let sb = b.sample(&from);
